@@ -15,6 +15,7 @@ class Canon(object):
         self.loops = {}
         self.keys = {}
         self.subst = {}
+        self.index_subst = {}
 
     def loop_name(self, lid):
         if lid not in self.loops:
@@ -60,6 +61,9 @@ class Canon(object):
             return self.term(t[2])
         if k == "field":
             return ("field", self.term(t[1]), t[2])
+        if k == "index":
+            b_, i_ = self.term(t[1]), self.term(t[2])
+            return self.index_subst.get((b_, i_), ("index", b_, i_))
         if k == "bin":
             op, a, b = t[1].replace("WithOverflow", "").replace("Unchecked", ""), self.term(t[2]), self.term(t[3])
             flip = {"Gt": "Lt", "Ge": "Le"}
@@ -121,22 +125,51 @@ class Canon(object):
     def loop(self, L, idx):
         name = self.loop_name(L.id)
         skip = set()
-        if L.kind == "counter" and L.elem is not None and L.elem[0] == "lvar":
-            # `while i < n { ..; i += 1 }`: the counter is the element of a range traversal
-            self.subst[L.elem] = ("elem", name)
-            skip.add(L.elem[2])
+        if L.kind == "counter":
+            # `while i < n { ..; i += 1 }`: the counter is the element of a range traversal, not a variable of its own
+            if L.elem is not None and L.elem[0] == "lvar":
+                self.subst[L.elem] = ("elem", name)
+            if L.counter_key is not None:
+                skip.add(L.counter_key)
+        # `for i in 0..xs.len() { .. xs[i] .. }` visits the elements of xs: xs[i] is the element
+        src_override = None
+        s = L.source
+        if isinstance(s, tuple) and s[0] == "agg" and s[2] == "std::ops::Range::Range" and len(s[3]) == 2 and s[3][0] == ("int", 0):
+            hi = self.term(s[3][1])
+            inner = None
+            if isinstance(hi, tuple) and hi[0] == "call" and hi[1] == "len" and len(hi[2]) == 1:
+                inner = hi[2][0]
+            elif isinstance(hi, tuple) and hi[0] == "len":
+                inner = hi[1]
+            if inner is not None:
+                self.index_subst[(inner, ("elem", name))] = ("elem", name + "@")
+                src_override = inner
         for k in sorted(L.carried, key=lambda k: repr(self.term(L.carried[k]))):
             if k not in skip:
                 self.key_name(k)
-        ways = []
-        for it in L.iters:
-            if it.end == "done":
-                continue
-            ups = tuple(sorted((self.key_name(k), repr(self.term(v))) for k, v in it.updates.items() if v != ("lvar", L.id, k) and k not in skip))
-            ways.append((it.end if it.end != "break" else "exit", self.conds(it.path), repr(self.events(it.path.events)), ups,
-                         repr(self.term(it.ret)) if it.end == "return" and it.ret is not None else None))
+        def build():
+            ws = []
+            for it in L.iters:
+                if it.end == "done":
+                    continue
+                ups = tuple(sorted((self.key_name(k), repr(self.term(v))) for k, v in it.updates.items() if v != ("lvar", L.id, k) and k not in skip))
+                ws.append((it.end if it.end != "break" else "exit", self.conds(it.path), repr(self.events(it.path.events)), ups,
+                           repr(self.term(it.ret)) if it.end == "return" and it.ret is not None else None))
+            return ws
+
+        ways = build()
         src = self.term(L.source) if L.source is not None else None
         stages = ()
+        if src_override is not None:
+            text = repr(ways)
+            marked = "'elem', '%s@'" % name
+            bare = "'elem', '%s'" % name
+            if marked in text.replace("\\", "") and bare not in text.replace("\\", "").replace(marked, ""):
+                # every use of the index is an access to xs[i]: a traversal of xs
+                for k2 in [k2 for k2, v2 in self.index_subst.items() if v2 == ("elem", name + "@")]:
+                    self.index_subst[k2] = ("elem", name)
+                ways = build()
+                src = src_override
         carried = tuple(sorted((self.key_name(k), repr(self.term(v))) for k, v in L.carried.items() if k not in skip))
         exit_how = None
         if idx is not None:
